@@ -59,9 +59,19 @@ func buildProfile(s *Sim, r *rand.Rand) {
 		}
 	}
 	cfg.Gw = GwCfg{Metrics: true}
+	if cfg.Profile == "locks" {
+		// the core profile with a scheduling point before every lock acquisition
+		// by a goroutine that holds none (rewriter rule R8)
+		p.Faults["lockyield"] = true
+		p.MaxSteps *= 3
+	}
 	switch cfg.Profile {
+	case "locks":
+		fallthrough
 	case "core", "":
-		cfg.Profile = "core"
+		if cfg.Profile == "" {
+			cfg.Profile = "core"
+		}
 		arm("timeout", true)
 		arm("reserr", true)
 		arm("noresp", true)
@@ -162,6 +172,18 @@ func buildCoreWorld(s *Sim, r *rand.Rand, n int) {
 
 func (s *Sim) genClientOp() (Decision, bool) {
 	p := s.Cfg.P
+	if p.Faults["lockyield"] {
+		// one connection set-up at a time (see assignCIDs), and no request on a
+		// connection whose id is not known yet
+		for _, c := range s.Clients {
+			c.mu.Lock()
+			st := c.State
+			c.mu.Unlock()
+			if st == "connecting" || (st == "open" && c.CIdx < 0) {
+				return Decision{}, false
+			}
+		}
+	}
 	// connect clients first (or late, interleaved)
 	if len(s.Clients) < p.NClients && (len(s.Clients) == 0 || s.chance(0.5)) {
 		name := fmt.Sprintf("k%d", len(s.Clients))
